@@ -404,10 +404,12 @@ def run_shard(d):
             if VARIANT == "last-language-empty":
                 # only the writers that merge concurrent captions are judged here (no force: the last language is the empty one)
                 for wr in ("SinglePositioningDFXPWriter", "LegacyDFXPWriter"):
-                    v, out = eval_dfxp(assign, None, wr)
-                    acc.case(("dfxp-" + wr, assign, VARIANT), True, out, {"route": wr, "cues_ms_per_language": assign, "variant": VARIANT})
-                    for kind, det in v:
-                        acc.violation(f"C14/{kind}/langs{d['nl']}{vx}", {"k": "dfxp", "force": None, "writer": wr, "assign": assign, "variant": VARIANT, "_env": d["_env"]}, det)
+                    # force="existing": the language asked for is the one without captions - no other language's cues then
+                    for force in (None, "existing"):
+                        v, out = eval_dfxp(assign, force, wr)
+                        acc.case(("dfxp-" + wr, assign, VARIANT, force), True, out, {"route": wr, "cues_ms_per_language": assign, "variant": VARIANT, "force": force})
+                        for kind, det in v:
+                            acc.violation(f"C14/{kind}/langs{d['nl']}{vx}", {"k": "dfxp", "force": force, "writer": wr, "assign": assign, "variant": VARIANT, "_env": d["_env"]}, det)
                 continue
             if VARIANT == "prefix-codes":
                 for wr in ("DFXPWriter", "SinglePositioningDFXPWriter", "LegacyDFXPWriter"):
